@@ -3810,12 +3810,13 @@ prefix_suffix_match(const char *pattern, const char *name, int ignorecase)
 			return *name == '\0';
 
 		case '*':
-			while (*name != '\0') {
+			/* try every rest of the name, the empty one included:
+			 * a '*' at the end of the pattern matches anything */
+			do {
 				if (prefix_suffix_match(pattern, name,
 					ignorecase))
 					return (1);
-				++name;
-			}
+			} while (*name++ != '\0');
 			return (0);
 		default:
 			if (c != *name) {
